@@ -828,6 +828,38 @@ def session_descriptors(rnd, quick):
     return out
 
 
+def simple_events(ctx, rnd, quick):
+    """The simplicity predicates where they are likely to be TRUE (random permutations almost never are): every permutation of
+    length 8 that the real code calls simple (the choice is made with the real predicate: it only selects inputs; a simple
+    permutation it overlooks is met by the exhaustive part up to length 6-7 and the random events), a sample of length 9-10
+    (all of length 9 in the thorough tier), and some the real code calls not simple."""
+    import itertools
+    ev = []
+    pools = {8: list(itertools.permutations(range(8)))}
+    if not quick:
+        pools[9] = list(itertools.permutations(range(9)))
+    for n, pool in pools.items():
+        for q in pool:
+            P = Perm(q)
+            st, sim = util.call(P.is_simple)
+            if st == "raise":
+                ctx.violation({"kind": "trace-call", "ev": {"op": "Simple", "p": list(q)}}, "NoException", "a boolean", sim)
+                break
+            if sim or rnd.random() < 0.01:
+                ev.append({"op": "Simple", "p": list(q), "simple": bool(sim), "ssimple": bool(P.is_strongly_simple())})
+    want = 300 if quick else 3000
+    tries = 0
+    while want and tries < 400000:
+        tries += 1
+        q = util.rand_perm(rnd, rnd.choice([9, 9, 10]))
+        P = Perm(q)
+        if P.is_simple():
+            want -= 1
+            ev.append({"op": "Simple", "p": list(q), "simple": True, "ssimple": bool(P.is_strongly_simple())})
+    ctx.note("simplicity_events", {"events": len(ev), "reported_strongly_simple": sum(1 for e in ev if e["ssimple"])})
+    return ev
+
+
 def record_events(ctx, descs):
     events = []
     for d in descs:
@@ -945,6 +977,7 @@ def run(ctx):
     hard = structured_descriptors(rnd_h, quick) + session_descriptors(rnd_h, quick)
     ctx.note("hardening_descriptors", {"structured_and_sessions": len(hard)})
     events = record_events(ctx, descs + hard)
+    events += simple_events(ctx, util.rng(ctx, 1011), quick)
     chunk = 300 if quick else 700
     parts = [events[i:i + chunk] for i in range(0, len(events), chunk)]
     verdicts = validate_many(ctx, parts)
